@@ -130,12 +130,13 @@ Proof. vm_compute. repeat split. Qed.
 (* ---------------------------------------------------------------------------------------------- *)
 (* 3. callback isolation (full strength)                                                           *)
 
-(* A CallbackRaises step changes nothing but which notification is marked as having raised, and
+(* A CallbackRaises step - for either class of error, an Exception or a gevent.Timeout - changes nothing but
+   which notification is marked as having raised, and
    every other step commutes with forgetting those marks: *)
 Theorem C19_callback_isolation_step : forall s,
-  erase (step s CallbackRaises) = erase s /\
+  (forall c, erase (step s (CallbackRaises c)) = erase s) /\
   forall l, is_raise l = false -> erase (step s l) = step (erase s) l.
-Proof. intros s. split; [apply erase_step_raise|intros l H; apply erase_step; exact H]. Qed.
+Proof. intros s. split; [intros c; apply erase_step_raise|intros l H; apply erase_step; exact H]. Qed.
 Print Assumptions C19_callback_isolation_step.
 
 (* so for every history: the run with raising callbacks and the run without them agree on
@@ -169,7 +170,7 @@ Print Assumptions C19_callback_isolation_notifications.
    sibling and raising callbacks reaches quiescent states with a non-empty consumer set *)
 Example C19_example :
   let ls := [CreateParent; Create 0; Create 1; Create 7; Start; WorkerStep (Some 1); Delete 0; WorkerStep (Some 0);
-             WorkerStep None; Deliver; WorkerStep None; CallbackRaises; DeleteParent; Deliver; Deliver;
+             WorkerStep None; Deliver; WorkerStep None; CallbackRaises RTimeout; DeleteParent; Deliver; Deliver;
              CreateParent; Deliver; Create 0; Deliver; WorkerStep (Some 0); WorkerStep None] in
   let s := run (init [7]) ls in
   guarded guard_all (init [7]) ls = true /\ quiescentb s = true /\ view (log s) = [0] /\ tree_members s = [0] /\
